@@ -433,6 +433,7 @@ func checkSrcsim(prop, tier string) int {
 	evHash := sha256.New()
 	groups := map[string]*violGroup{}
 	fired := map[string]int{}
+	notFired := map[string]int{}
 	classes := map[string]int{}
 	states := map[string]bool{}
 	infraN := 0
@@ -452,8 +453,32 @@ func checkSrcsim(prop, tier string) int {
 		fmt.Fprintln(evLog, line)
 		evHash.Write([]byte(line + "\n"))
 		classes[m.Class]++
-		for _, k := range m.Kinds {
-			fired[k]++
+		// a fault counts as fired only if the compiler actually reached the faulted file: the root, a module it
+		// produced / attempted (module cache key) or a file named in a diagnostic
+		touched := map[string]bool{}
+		for _, c := range r.Calls {
+			for _, mname := range c.Modules {
+				touched[strings.TrimSuffix(strings.TrimSuffix(strings.TrimPrefix(mname, "$R/"), "=nil"), "=faulty")] = true
+			}
+			for _, d := range c.Diags {
+				touched[strings.TrimPrefix(d.File, "$R/")] = true
+			}
+		}
+		allFaults := append([]simdisk.Fault{}, plan.jobs[i].Faults...)
+		for _, st := range plan.jobs[i].Steps {
+			allFaults = append(allFaults, st.Faults...)
+		}
+		if len(allFaults) == 0 {
+			for _, k := range m.Kinds {
+				fired[k]++
+			}
+		}
+		for _, f := range allFaults {
+			if f.File == plan.jobs[i].Root || touched[f.File] || r.Died != "" {
+				fired[f.Kind]++
+			} else {
+				notFired[f.Kind]++
+			}
 		}
 		for _, c := range r.Calls {
 			calls++
@@ -560,6 +585,7 @@ func checkSrcsim(prop, tier string) int {
 		"runs":                      len(results),
 		"runs_by_class":             classes,
 		"fault_kinds_fired":         fired,
+		"fault_kinds_configured_not_fired": notFired,
 		"runs_per_hour":             perHour(len(results), simWall),
 		"seeds_per_hour":            perHour(1, time.Since(startT)),
 		"simulated_time_s":          0,
